@@ -267,6 +267,17 @@ def _pipeline_inputs(ctx, rule: str):
                 f"not found")
 
 
+def _given_state(t: T, given: dict):
+    """truth of a test on an optional command-line value: the value itself
+    (truthiness) or `value is [not] None`"""
+    if t in given:
+        return given[t]
+    if t.op == "cmp" and t.args[0] in ("Is", "IsNot") and \
+            t.args[2] is tm.NONE and t.args[1] in given:
+        return given[t.args[1]] == (t.args[0] == "IsNot")
+    return None
+
+
 def _helpers(ctx, rule: str):
     """the values are compositions of the Lie helpers: the relative pose
     must be A^-1 * B with the true SE(3) inverse, and the angle must be the
@@ -447,10 +458,9 @@ def _run_wiring(ctx, modname: str, core: str, P: str):
         other = "t_end" if opt == "t_start" else "t_start"
 
         def only(t, opt=opt, other=other):
-            if t is A(opt):
-                return True
-            if t is A(other):
-                return False
+            g = _given_state(t, {A(opt): True, A(other): False})
+            if g is not None:
+                return g
             if is_call_to(t, "builtins.isinstance"):
                 return True
             return None
@@ -464,9 +474,7 @@ def _run_wiring(ctx, modname: str, core: str, P: str):
                key=f"{_R(P, 5)}:run:crop-enabled:{opt}")
 
     def none_given(t):
-        if t is A("t_start") or t is A("t_end"):
-            return False
-        return None
+        return _given_state(t, {A("t_start"): False, A("t_end"): False})
     ok = all(tm.fold(ce.live, none_given) is False for ce in crop)
     ctx.ob(_R(P, 5), crop[0], ok,
            "run(): without --t_start / --t_end nothing is cropped" if ok else
